@@ -31,7 +31,104 @@ type liaScript struct {
 	declF  map[string]bool
 	nabs   int
 	ranged map[string]bool
+	ub     map[int]*big.Int // upper bounds of terms implied by unit hypotheses
+	ubMemo map[int]*big.Int
 }
+
+func maxOf(n int) *big.Int {
+	return new(big.Int).Sub(new(big.Int).Lsh(big.NewInt(1), uint(n)), big.NewInt(1))
+}
+
+// learnBound records the upper bound a unit hypothesis h gives some term.
+func (s *liaScript) learnBound(h *Term) {
+	set := func(t *Term, b *big.Int) {
+		if old, ok := s.ub[t.id]; !ok || b.Cmp(old) < 0 {
+			s.ub[t.id] = b
+		}
+	}
+	switch h.Op {
+	case "=":
+		for k := 0; k < 2; k++ {
+			l, r := h.Args[k], h.Args[1-k]
+			if l.Op == "extract" && r.IsConst() && r.Val == 0 && l.P1 == l.Args[0].Sort-1 && l.P2 > 0 {
+				set(l.Args[0], maxOf(l.P2))
+			}
+		}
+	case "bvule":
+		if h.Args[1].IsConst() {
+			set(h.Args[0], new(big.Int).SetUint64(h.Args[1].Val))
+		}
+	case "bvult":
+		if h.Args[1].IsConst() && h.Args[1].Val > 0 {
+			set(h.Args[0], new(big.Int).SetUint64(h.Args[1].Val-1))
+		}
+	case "not":
+		a := h.Args[0]
+		if a.Op == "bvult" && a.Args[0].IsConst() { // not (c < t): t <= c
+			set(a.Args[1], new(big.Int).SetUint64(a.Args[0].Val))
+		}
+		if a.Op == "bvule" && a.Args[0].IsConst() && a.Args[0].Val > 0 { // not (c <= t): t < c
+			set(a.Args[1], new(big.Int).SetUint64(a.Args[0].Val-1))
+		}
+	}
+}
+
+// bound: an upper bound of the unsigned value of t (under the unit hypotheses).
+func (s *liaScript) bound(t *Term) *big.Int {
+	if b, ok := s.ubMemo[t.id]; ok {
+		return b
+	}
+	n := t.Sort
+	full := maxOf(n)
+	b := full
+	switch t.Op {
+	case "const":
+		b = new(big.Int).SetUint64(t.Val)
+	case "zext":
+		b = s.bound(t.Args[0])
+	case "ite":
+		x, y := s.bound(t.Args[1]), s.bound(t.Args[2])
+		if x.Cmp(y) > 0 {
+			b = x
+		} else {
+			b = y
+		}
+	case "bvadd":
+		b = new(big.Int).Add(s.bound(t.Args[0]), s.bound(t.Args[1]))
+	case "bvmul":
+		if t.Args[0].Op == "const" {
+			b = new(big.Int).Mul(new(big.Int).SetUint64(t.Args[0].Val), s.bound(t.Args[1]))
+		} else if t.Args[1].Op == "const" {
+			b = new(big.Int).Mul(new(big.Int).SetUint64(t.Args[1].Val), s.bound(t.Args[0]))
+		}
+	case "extract":
+		if t.P2 == 0 {
+			b = s.bound(t.Args[0])
+		}
+	case "bvand":
+		x, y := s.bound(t.Args[0]), s.bound(t.Args[1])
+		if x.Cmp(y) < 0 {
+			b = x
+		} else {
+			b = y
+		}
+	case "bvlshr":
+		b = s.bound(t.Args[0])
+	}
+	if b.Cmp(full) > 0 {
+		b = full
+	}
+	if u, ok := s.ub[t.id]; ok && u.Cmp(b) < 0 {
+		b = u
+	}
+	s.ubMemo[t.id] = b
+	return b
+}
+
+// fits: the exact (unbounded) sum/product stays below 2^n, so no reduction is needed.
+func fitsIn(b *big.Int, n int) bool { return b.Cmp(maxOf(n)) <= 0 }
+
+var _ = fitsIn
 
 func pow2(n int) string {
 	return new(big.Int).Lsh(big.NewInt(1), uint(n)).String()
@@ -74,6 +171,16 @@ func (s *liaScript) def(t *Term, sortInt bool, expr string) string {
 
 func (s *liaScript) signed(x string, n int) string {
 	return fmt.Sprintf("(ite (>= %s %s) (- %s %s) %s)", x, pow2(n-1), x, pow2(n), x)
+}
+
+// signedT: the signed reading of term t (translated as x); plain x when t is known to be
+// below 2^(n-1).
+func (s *liaScript) signedT(t *Term, x string) string {
+	n := t.Sort
+	if s.bound(t).Cmp(maxOf(n-1)) <= 0 {
+		return x
+	}
+	return s.signed(x, n)
 }
 
 // tr translates a term (iteratively over the DAG).
@@ -184,8 +291,13 @@ func (s *liaScript) one(t *Term) {
 		if t.Op == "bvsle" {
 			op = "<="
 		}
-		s.def(t, false, fmt.Sprintf("(%s %s %s)", op, s.signed(a(0), w), s.signed(a(1), w)))
+		_ = w
+		s.def(t, false, fmt.Sprintf("(%s %s %s)", op, s.signedT(t.Args[0], a(0)), s.signedT(t.Args[1], a(1))))
 	case "bvadd":
+		if new(big.Int).Add(s.bound(t.Args[0]), s.bound(t.Args[1])).Cmp(maxOf(n)) <= 0 {
+			s.def(t, true, fmt.Sprintf("(+ %s %s)", a(0), a(1)))
+			return
+		}
 		s.def(t, true, fmt.Sprintf("(mod (+ %s %s) %s)", a(0), a(1), pow2(n)))
 	case "bvsub":
 		s.def(t, true, fmt.Sprintf("(mod (- %s %s) %s)", a(0), a(1), pow2(n)))
@@ -194,8 +306,16 @@ func (s *liaScript) one(t *Term) {
 	case "bvmul":
 		switch {
 		case t.Args[0].Op == "const":
+			if new(big.Int).Mul(new(big.Int).SetUint64(t.Args[0].Val), s.bound(t.Args[1])).Cmp(maxOf(n)) <= 0 {
+				s.def(t, true, fmt.Sprintf("(* %d %s)", t.Args[0].Val, a(1)))
+				return
+			}
 			s.def(t, true, fmt.Sprintf("(mod (* %d %s) %s)", t.Args[0].Val, a(1), pow2(n)))
 		case t.Args[1].Op == "const":
+			if new(big.Int).Mul(new(big.Int).SetUint64(t.Args[1].Val), s.bound(t.Args[0])).Cmp(maxOf(n)) <= 0 {
+				s.def(t, true, fmt.Sprintf("(* %d %s)", t.Args[1].Val, a(0)))
+				return
+			}
 			s.def(t, true, fmt.Sprintf("(mod (* %d %s) %s)", t.Args[1].Val, a(0), pow2(n)))
 		default:
 			s.abstract(t)
@@ -255,7 +375,13 @@ func (s *liaScript) one(t *Term) {
 
 // scriptLIA renders the integer encoding of obligation o over hypotheses hyps.
 func (x *Exec) scriptLIA(o *Oblig, hyps []*Term) string {
-	s := &liaScript{tb: x.tb, names: map[int]string{}, declV: map[string]bool{}, declF: map[string]bool{}, ranged: map[string]bool{}}
+	s := &liaScript{tb: x.tb, names: map[int]string{}, declV: map[string]bool{}, declF: map[string]bool{}, ranged: map[string]bool{}, ub: map[int]*big.Int{}, ubMemo: map[int]*big.Int{}}
+	for _, h := range hyps {
+		s.learnBound(h)
+	}
+	for _, h := range conjuncts(o.PC, nil) {
+		s.learnBound(h)
+	}
 	for _, h := range hyps {
 		fmt.Fprintf(&s.body, "(assert %s)\n", s.tr(h))
 	}
